@@ -530,7 +530,7 @@ class SAMIWriter(BaseWriter):
                     attr, value, caption_set.layout_info)
 
         for lang in caption_set.get_languages():
-            lang_string = f'lang: {lang}'
+            lang_string = f'lang: {lang};'
             if lang_string not in stylesheet:
                 stylesheet += self._recreate_style_block(
                     lang, {'lang': lang}, caption_set.get_layout_info(lang))
